@@ -151,7 +151,7 @@ class Extractor:
         self.line += text.count("\n")
 
     # ---------- global drops on a region (attributes, tracing macros)
-    def apply_global_edits(self, region, t_lo, t_hi, noderive=()):
+    def apply_global_edits(self, region, t_lo, t_hi, noderive=(), keepderive=()):
         sf = region.sf
         toks, brk = sf.toks, sf.brk
         i = t_lo
@@ -163,7 +163,7 @@ class Extractor:
                 if inner and inner[0].text == "derive":
                     # filter derive list
                     names = [x.text for x in toks[i + 4:brk[i + 3]] if x.kind == "ident"]
-                    keep = [n for n in names if n in KEEP_DERIVES and n not in noderive]
+                    keep = [n for n in names if (n in KEEP_DERIVES or n in keepderive) and n not in noderive]
                     if keep != names:
                         new = "#[derive(" + ", ".join(keep) + ")]" if keep else ""
                         region.add(t.start, toks[close].end, new, "drop", "D-attr derive " + ",".join(n for n in names if n not in keep))
@@ -461,7 +461,11 @@ class Extractor:
         for o in f.get("opts", []):
             if o.startswith("noderive="):
                 noderive = tuple(o[len("noderive="):].split(","))
-        self.apply_global_edits(reg, it.first, it.last, noderive)
+        keepderive = ()
+        for o in f.get("opts", []):
+            if o.startswith("keepderive="):
+                keepderive = tuple(o[len("keepderive="):].split(","))
+        self.apply_global_edits(reg, it.first, it.last, noderive, keepderive)
         for (rule, frm, to) in self.rwall:
             self.apply_rw(reg, it.first, it.last, rule, None, frm, to, f["where"])
         for (rule, count, frm, to, where) in f["rws"]:
@@ -500,6 +504,34 @@ class Extractor:
                 if t.text == ",":
                     expect_field = True
                 k += 1
+        if f["kind"] == "item" and "pubfields" in f["opts"] and it.body_open < 0 and it.kind == "struct":
+            # tuple struct: `struct X<'a>(A, B);`
+            k = it.kw + 2
+            while k < it.last and toks[k].text != "(":
+                k += 1
+            if k < it.last:
+                close = brk[k]
+                j = k + 1
+                expect_field = True
+                adepth = 0
+                while j < close:
+                    t = toks[j]
+                    if expect_field and adepth == 0:
+                        if not (t.kind == "ident" and t.text == "pub"):
+                            reg.add(t.start, t.start, "pub ", "ins", "D-vis")
+                        expect_field = False
+                    if t.text in ("(", "[", "{"):
+                        j = brk[j] + 1
+                        continue
+                    if t.text == "<":
+                        adepth += 1
+                    elif t.text == ">":
+                        adepth -= 1
+                    elif t.text == ">>":
+                        adepth -= 2
+                    elif t.text == "," and adepth == 0:
+                        expect_field = True
+                    j += 1
         body_open = it.body_open
         if f["kind"] == "fn":
             if body_open < 0:
